@@ -6,6 +6,8 @@ C07.b query type = packer type: every Packer::add is control-dependent on a nega
   for the SAME id, and the lookup's blob type equals the BlobType the packer was constructed with.
 C07.c the id is the hash of exactly the bytes sent: the id handed to the packer derives from hash() of the same buffer
   that is handed over as data.
+C07.e shift resilience, structural part: the rabin chunker counts the bytes carried over in its read-ahead buffer towards
+  min_size (shared with C06.f) - otherwise boundaries after an edit depend on buffer alignment and far-away chunks change.
 C07.d unchanged-tree shortcut: a tree is reported unchanged only if its freshly computed id equals the parent's id.
 """
 import re
@@ -75,8 +77,11 @@ def packer_type(prog, body, recv_place):
 def run(ctx, rep):
     prog = ctx.prog
     for r, tx in (("C07.a", "typed blob identity in the written-blob filter"), ("C07.b", "index lookup type = packer type, same id"),
-                  ("C07.c", "id = hash of the bytes handed over"), ("C07.d", "unchanged-tree shortcut compares ids")):
+                  ("C07.c", "id = hash of the bytes handed over"), ("C07.d", "unchanged-tree shortcut compares ids"),
+                  ("C07.e", "cut-point search start depends on content only (carry counted towards min_size)")):
         rep.rule(r, tx)
+    from rules import C06
+    C06.carry_rule(ctx, rep, "C07.e")
     from rules import typedid
     typedid.run(ctx, rep, "C07.a", owners=["index::indexer::Indexer.indexed"])
     adds = [(b, bb, t) for b in prog.by_crate["rustic_core"] for bb, t in b.calls() if "callee" in t and ADD.search(callee(t))]
